@@ -377,7 +377,7 @@ func (c09) Run(tp *Tape, opt RunOpt) *RunOut {
 	flood := !siege && tp.Chance(LaneWork, 1, 150)
 	floodN := 0
 	if flood {
-		floodN = []int{100, 300, 520, 700, 1100}[tp.Draw(LaneWork, 5)]
+		floodN = []int{100, 300, 520, 600, 700}[tp.Draw(LaneWork, 5)]
 	}
 	nAtoms := 1 + tp.Draw(LaneWork, 3)
 	nThreads := 2 + tp.Draw(LaneWork, 4)
@@ -398,6 +398,8 @@ func (c09) Run(tp *Tape, opt RunOpt) *RunOut {
 		cfg.Q, cfg.WindowBias = 1, 0
 		cfg.MaxDecisions = 4*siegeN + 1000
 	} else if flood {
+		// long quanta: a fifth of the decisions of the usual walk, and the switch still lands on any step
+		cfg.Q = 16
 		cfg.MaxDecisions = 400000
 	} else if tp.Chance(LaneWork, 1, 5) {
 		cfg.StarveID = tp.Draw(LaneWork, nThreads+2)
